@@ -200,6 +200,13 @@ Lemma firstn_app_le {A} (n : nat) (a b : list A) :
   (n <= length a)%nat -> firstn n (a ++ b) = firstn n a.
 Proof. intro H. rewrite firstn_app. replace (n - length a)%nat with 0%nat by lia. simpl. apply app_nil_r. Qed.
 
+Lemma head_demand_spec st d :
+  0 < h_n st -> (1 <= d)%nat ->
+  (1 <= head_demand st d)%nat /\ (head_demand st d <= d)%nat /\ Z.of_nat (head_demand st d) <= h_n st.
+Proof.
+  intros Hn Hd. unfold head_demand. destruct (Z.ltb_spec (h_n st) (Z.of_nat d)); lia.
+Qed.
+
 Lemma head_step :
   step_ok head_st head_read (fun _ => True) (fun st => sem_head (h_n st) (rows_of (h_up st)))
           head_failing head_failing (fun st => smeas (h_up st)).
@@ -209,33 +216,31 @@ Proof.
   - injection H as Ho Hs Hst; subst o s st'. simpl. split; [lia|].
     unfold sem_head, head_failing. replace (Z.to_nat (h_n st)) with 0%nat by lia. simpl. split; auto.
     apply andb_false_iff. right. apply Z.ltb_ge. lia.
-  - destruct (up_read (h_up st) d) as [[rows s0] up'] eqn:E. inversion H; subst; clear H.
-    destruct (up_read_spec _ _ _ _ _ Hd E) as [Hl Hs].
-    set (n := h_n st) in *. set (k := Z.of_nat (length rows)).
-    assert (Hout : firstn (Z.to_nat (if n - k <? 0 then k - - (n - k) else k)) rows
-                   = firstn (Z.to_nat n) rows).
-    { destruct (Z.ltb_spec (n - k) 0).
-      - f_equal. lia.
-      - rewrite !firstn_all2; auto; unfold k in *; lia. }
-    rewrite Hout. split; [rewrite firstn_length; lia|].
+  - destruct (head_demand_spec st d Hn Hd) as (Hd1 & Hd2 & Hd3).
+    destruct (up_read (h_up st) (head_demand st d)) as [[rows s0] up'] eqn:E. inversion H; subst; clear H.
+    destruct (up_read_spec _ _ _ _ _ Hd1 E) as [Hl Hs].
+    set (n := h_n st) in *. set (k := Z.of_nat (length o)).
+    assert (Hk : k <= n) by (unfold k; lia).
+    split; [lia|].
     unfold sem_head, head_failing. destruct s; simpl.
     + destruct Hs as (HR & HF & HM). rewrite HR, HF, app_length.
       repeat split; auto.
-      * rewrite firstn_app. f_equal. f_equal. unfold k. lia.
+      * rewrite firstn_app. rewrite firstn_all2 by (unfold k in *; lia). f_equal. f_equal. unfold k. lia.
       * f_equal. unfold n, k.
-        destruct (Z.ltb_spec (Z.of_nat (length (rows_of up'))) (h_n st - Z.of_nat (length rows)));
-          destruct (Z.ltb_spec (Z.of_nat (length rows + length (rows_of up'))) (h_n st)); auto; lia.
+        destruct (Z.ltb_spec (Z.of_nat (length (rows_of up'))) (h_n st - Z.of_nat (length o)));
+          destruct (Z.ltb_spec (Z.of_nat (length o + length (rows_of up'))) (h_n st)); auto; lia.
       * f_equal. unfold n, k.
-        destruct (Z.ltb_spec (Z.of_nat (length (rows_of up'))) (h_n st - Z.of_nat (length rows)));
-          destruct (Z.ltb_spec (Z.of_nat (length rows + length (rows_of up'))) (h_n st)); auto; lia.
-    + destruct Hs as (HR & HF & _). rewrite HR, HF. auto.
-    + destruct Hs as (-> & HF & _). simpl. rewrite firstn_nil. split; [apply prefix_nil|].
+        destruct (Z.ltb_spec (Z.of_nat (length (rows_of up'))) (h_n st - Z.of_nat (length o)));
+          destruct (Z.ltb_spec (Z.of_nat (length o + length (rows_of up'))) (h_n st)); auto; lia.
+    + destruct Hs as (HR & HF & _). rewrite HR, HF. split; auto.
+      apply firstn_all2. unfold k in *. lia.
+    + destruct Hs as (-> & HF & _). simpl. split; [apply prefix_nil|].
       (* an upstream failure met while rows are still wanted *)
       rewrite HF. simpl.
       destruct (h_up st) as [|[l|l|e0] r]; simpl in E.
       * discriminate.
-      * destruct (length l <=? d)%nat; discriminate.
-      * destruct (length l <=? d)%nat; discriminate.
+      * destruct (length l <=? head_demand st d)%nat; discriminate.
+      * destruct (length l <=? head_demand st d)%nat; discriminate.
       * simpl. apply Z.ltb_lt. lia.
     + auto.
 Qed.
@@ -259,10 +264,22 @@ Proof.
   - apply head_delivers; exact H1.
   - rewrite HR. apply head_delivers; exact H2.
 Qed.
-(* "writes only those rows" is FALSE of headReader: the upstream read is made
-   directly into the destination, so rows past the reported count are written *)
-Theorem head_writes_only_prefix_refuted :
-  exists st d, length (fst (fst (head_read st d))) < length (head_written st d).
+(* "writes only those rows": the rows that land in the destination are exactly
+   the rows reported (the upstream read is cut to the rows still wanted) *)
+Theorem head_writes_only_prefix st d :
+  head_written st d = fst (fst (head_read st d)).
+Proof.
+  unfold head_written, head_read. destruct (h_n st <=? 0)%Z; [reflexivity|].
+  destruct (up_read (h_up st) (head_demand st d)) as [[rows s] up']. reflexivity.
+Qed.
+(* the upstream is never asked for more than the rows still wanted *)
+Theorem head_demand_bounded st d :
+  (0 < h_n st)%Z -> (1 <= d)%nat -> (Z.of_nat (head_demand st d) <= h_n st)%Z /\ (head_demand st d <= d)%nat.
+Proof. intros Hn Hd. destruct (head_demand_spec st d Hn Hd) as (_ & A & B). split; assumption. Qed.
+(* witness of the defect repaired by commit b23d5f2: the old reader wrote
+   destination rows past the count it reported *)
+Theorem head_read_overwriting_wrote_past_count :
+  exists st d, length (fst (fst (head_read_overwriting st d))) < length (head_written_overwriting st d).
 Proof. exists (mkHead [Rows [[1%Z]; [2%Z]; [3%Z]]] 1%Z), 3. vm_compute. lia. Qed.
 
 (* ------------------------------------------------------------------ *)
